@@ -102,6 +102,10 @@ class GenProp(Prop):
         T = len(sizes)
         col = lambda k: [r[k] for r in jds]
         calls = obs["calls"]
+        # two runs can be compared with each other only when both were driven by the same scripted permutations; a generator that
+        # draws its permutations through something the script does not see (another RNG, another primitive) gives a different,
+        # equally valid outcome on every run
+        scripted = not obs.get("unscripted_shuffles") and not any(len(case["draws"][k]) > 1 for k in obs.get("shuffles_missing") or [])
         if obs["jds_out"] != jds or not obs["jds_input_untouched"]:
             f.append("jds-changed: joint degree sequence not carried through unchanged")
         for c in calls:
@@ -123,12 +127,12 @@ class GenProp(Prop):
             if "exc" in net:
                 f.append(f"network-raised: {net['exc']}")
             else:
-                if net.get("calls") is not None and [(c["top"], sorted(c["verts"])) for c in net["calls"]] != \
+                if scripted and net.get("calls") is not None and [(c["top"], sorted(c["verts"])) for c in net["calls"]] != \
                         [(c["top"], sorted(c["verts"])) for c in calls]:
                     f.append("network-motifs: network variant built different motif instances than the edge-list variant")
                 if any(n not in range(N) for n in net.get("nodes", [])):
                     f.append("network-vertex-out-of-range")
-                if "paths_differ" in net:
+                if "paths_differ" in net and (scripted or "raised" in str(net["paths_differ"])):
                     f.append(f"network-paths: construction path {net['paths_differ']} differs from direct construction")
         else:
             for j, orb in enumerate(case["orbits"]):
@@ -147,7 +151,7 @@ class GenProp(Prop):
                         f.append(f"slots: vertex slot counts in orbit column {o} differ from jds")
                     off += sizes[o]
         for p, r in obs["paths"].items():
-            if r != "same":
+            if r != "same" and (scripted or r.startswith("raised")):
                 f.append(f"paths: construction through {p} {r}")
         if obs.get("shuffles_missing") and any(len(case["draws"][k]) > 0 for k in obs["shuffles_missing"]):
             pass  # uniformity is C03's business
